@@ -593,12 +593,6 @@ func (h *httpServerHandler) handleGet(ctx context.Context, w http.ResponseWriter
 		return
 	}
 
-	// Set SSE response headers
-	sseutil.SetStandardHeaders(w)
-	w.Header().Set(httputil.SessionIDHeader, session.GetID())
-	w.WriteHeader(http.StatusOK)
-	flusher.Flush()
-
 	// Create context, for canceling connection
 	connCtx, cancelConn := context.WithCancel(ctx)
 	localCancelFunc = cancelConn // Assign to the variable captured by defer
@@ -621,8 +615,20 @@ func (h *httpServerHandler) handleGet(ctx context.Context, w http.ResponseWriter
 		lastEventID:  lastEventID,
 		sseResponder: newSSEResponder(),
 	}
+	// Register the stream before its response headers go out: once the client has
+	// the headers, a notification for this session must find the stream. The
+	// connection's write lock is held meanwhile, so nothing is written to the
+	// stream ahead of its headers.
+	conn.writeLock.Lock()
 	h.getSSEConnections[session.GetID()] = conn
 	h.getSSEConnectionsLock.Unlock()
+
+	// Set SSE response headers
+	sseutil.SetStandardHeaders(w)
+	w.Header().Set(httputil.SessionIDHeader, session.GetID())
+	w.WriteHeader(http.StatusOK)
+	flusher.Flush()
+	conn.writeLock.Unlock()
 
 	// Record connection information
 	h.logger.Infof("Established GET SSE connection, session ID: %s", session.GetID())
